@@ -238,7 +238,46 @@ def run(facts, rep):
         return None
     rep.inventory['E7 tables'] = {k: ({str(a): b for a, b in v.items()} if isinstance(v, dict) else v) for k, v in T.items()}
     selftest(T, rep)
+    check_shared_visited(facts, rep)
     return check_tables(T, rep)
+
+
+def check_shared_visited(facts, rep):
+    """T8: crossing_signs / components sweep the diagram three times (start positions 0, then 1, 2 for components that
+    never pass under). The later sweeps must skip every edge an earlier sweep has walked - otherwise strands are
+    re-walked against their orientation and correct signs are overwritten. Structurally: the visited-edge set is
+    created ONCE in the enclosing function and the sweep closure (and the per-edge closure inside it) only
+    *capture* it; no HashSet is created inside the sweep closure."""
+    for fn in ('crossing_signs', 'components'):
+        root = 'yui_link::link::link::Link::' + fn
+        if root not in facts.bodies:
+            rep.indet('E7.T8: %s not found' % root)
+            continue
+        bodies = {k: b for k, b in facts.bodies.items() if k == root or k.startswith(root + '::{closure')}
+        created = {}
+        uses = []
+        for k, b in bodies.items():
+            rep.saw(b)
+            for c in b.calls():
+                g = c.generic or ''
+                if g.endswith('HashSet::<T, std::hash::RandomState>::new') or (g.endswith('::new') and 'HashSet' in g):
+                    created[k] = created.get(k, 0) + 1
+            for p in SymEx(b, havoc_loops=True, max_paths=5000).run():
+                for e in p.calls():
+                    if 'HashSet' in e.name and e.name.split('::')[-1] in ('contains', 'insert') and e.args:
+                        uses.append((k, e.name.split('::')[-1], sk(e.args[0])))
+        inst = 'Link::%s|one visited-edge set shared by all sweeps' % fn
+        in_closure = [k for k in created if k != root]
+        captured = [u for u in uses if u[0] != root and re.search(r'\^(_ref__)?passed\)*$', u[2])]
+        local_use = [u for u in uses if u[0] != root and not re.search(r'\^', u[2])]
+        kinds = {u[1] for u in captured}
+        if created.get(root, 0) >= 1 and not in_closure and not local_use and kinds == {'contains', 'insert'}:
+            rep.ok('E7.T8-shared-visited-set', inst, 'created once in %s, captured by the sweep closures (%d uses)' % (fn, len(set(captured))))
+        else:
+            rep.violation('E7.T8-shared-visited-set', inst,
+                          'Link::%s: the visited-edge set is created in %s and used as %s; the fallback sweeps (start positions 1, 2) must see the edges the first sweep walked, '
+                          'or they re-walk oriented components backwards and overwrite their crossing signs' % (fn, sorted(created) or 'nowhere', sorted(set(u[2] for u in uses))[:4]),
+                          where='yui-link/src/link/link.rs')
 
 
 def selftest(T, rep):
